@@ -151,7 +151,10 @@ func (nm LNumber) Format(f fmt.State, c rune) {
 	switch c {
 	case 'q', 's':
 		defaultFormat(nm.String(), f, c)
-	case 'b', 'c', 'd', 'o', 'x', 'X', 'U':
+	case 'c':
+		// one byte, like C's (unsigned char) conversion; not the UTF-8 encoding of a code point
+		LString(string([]byte{byte(int64(nm))})).Format(f, 's')
+	case 'b', 'd', 'o', 'x', 'X', 'U':
 		defaultFormat(int64(nm), f, c)
 	case 'e', 'E', 'f', 'F', 'g', 'G':
 		defaultFormat(float64(nm), f, c)
